@@ -31,7 +31,8 @@ CHECKS = {
              'checking equal cores, and a pair that passes hands over to the next pair of the row; all edge-recording sites of a '
              'reprocessed state overwrite; garbage collection precedes graph construction and filters the state vector and '
              'the edge vector by the same membership test; a goto set is merged only into a state that passed the weak-compatibility test, '
-             'and the closed form of the state being processed is stored before its successors are merged.',
+             'and the closed form of the state being processed is stored before its successors are merged; the new number garbage '
+             'collection writes into an edge depends on the edge\'s target, never on a running count of the loop over the source states.',
         note='Necessary conditions only: equivalence with canonical LR(1) on every input and "never more states than canonical" '
              'need an independent construction and are NOT decided. Trusted: ' + TB,
         technique='path-table extraction (exhaustive over the 4 intersection atoms), dominance and reachability over MIR',
@@ -113,7 +114,8 @@ CHECKS = {
     'C10': dict(
         level='other',
         text='Structural clauses: names and their spans come from the same bounds (parse_name / parse_token / their callers); the '
-             'token span table grows exactly when the token set reports a new token; nothing but that table depends on first mention; and '
+             'token span table grows exactly when the token set reports a new token; nothing but that table depends on first mention; every line break the '
+             'scanner recognises and moves over inside a loop that ends at the end of its line advances the line counter that loop compares; and '
              '"numbered densely from zero, every index the API returns is in range". Fields of the '
              'grammar object that an accessor indexes with a PIdx/TIdx/RIdx are found from the accessors\' MIR; in the constructor '
              'every vector flowing into such a field must end with the length of its class leader (the vector whose len() '
